@@ -374,3 +374,7 @@ def name_comment_siblings(ck, P, R="SIB/name~comment"):
               "the Name and Comment arms of dispatch no longer call the same functions (%s only in one of them): the two header "
               "strings are consumed or captured differently (e.g. one loses its terminating zero)" % diff, where(d))
     ck.floor(R, len(set(a)), 8)
+
+# session 5 (round 10)
+EXPLANATION = EXPLANATION + " " + (
+    'SIB/name~comment: the Name and Comment arms of dispatch call the same functions (two copies of one routine).')
